@@ -132,6 +132,12 @@ def gen_edit(rng, st, prof):
     # new file, not colliding with an existing directory or below an existing file
     for _ in range(20):
         p = new_path(rng, prof)
+        if st.dirs and rng.random() < 0.5:
+            # grow an existing directory: siblings at depth make directory operations interesting
+            comps = prof.get("components", COMPONENTS)
+            p = rng.choice(st.dirs) + b"/" + rng.choice(comps)
+            if p.count(b"/") > 4:
+                continue
         if p in st.s.dirs or any(a in st.s.files for a in parents(p)) or p in st.s.files:
             continue
         return Edit("write", p, content(rng))
